@@ -249,6 +249,18 @@ def classify(msg):
 
 
 def verify_unit(name, spec_path, repo, build_dir, extra=None, do_canary=True, timeout=900, devs=()):
+    """One unit, and - when the only thing in the way is the solver's resource limit on some function - once more with four times
+    the budget (a query that needs a little more than the default on perturbed code is decided instead of left undecided; a query
+    that diverges still ends as 'solver resource limit')."""
+    res = _verify_unit_once(name, spec_path, repo, build_dir, extra, do_canary, timeout, devs)
+    if res.status == "undecided" and (res.reason or "").startswith("solver resource limit") and "--rlimit" not in (extra or []):
+        first = res.reason
+        res = _verify_unit_once(name, spec_path, repo, build_dir, list(extra or []) + ["--rlimit", "40"], do_canary, timeout, devs)
+        res.rlimit_retry = first
+    return res
+
+
+def _verify_unit_once(name, spec_path, repo, build_dir, extra=None, do_canary=True, timeout=900, devs=()):
     res = UnitResult(name)
     t_start = time.time()
     u = Unit(name, spec_path, repo)
